@@ -34,12 +34,14 @@ pub fn hk_name(h: HKind) -> &'static str {
         HKind::Mul => "mul",
         HKind::Low => "low",
         HKind::Const => "const",
+        HKind::Id => "id",
     }
 }
 pub fn hk_parse(s: &str) -> HKind {
     match s {
         "low" => HKind::Low,
         "const" => HKind::Const,
+        "id" => HKind::Id,
         _ => HKind::Mul,
     }
 }
@@ -111,7 +113,8 @@ fn gen_history(slot: usize, id: usize, seed: u64, slice: Slice, nops: usize, max
     let hseed = seed.wrapping_mul(1_000_003).wrapping_add(id as u64);
     let mut g = Gen::new(hseed, slice, max_len);
     // the fully colliding hasher is quadratic: only for small targets
-    let hk = match g.rng.below(5) {
+    let hk = match g.rng.below(6) {
+        5 => HKind::Id,
         0 | 1 => HKind::Mul,
         2 | 3 => {
             if g.target <= 8000 { HKind::Low } else { HKind::Mul }
@@ -267,6 +270,21 @@ fn main() {
         "run" => cmd_run(&args),
         "replay" => cmd_replay(&args),
         "extra" => extra::cmd_extra(&args),
+        // the operations of one generated history (generation is adaptive, so the history is executed again)
+        "ops" => {
+            let slice = Slice::parse(arg(&args, "--slice").unwrap_or("core")).expect("slice");
+            let seed: u64 = arg(&args, "--seed").and_then(|s| s.parse().ok()).unwrap_or(1);
+            let id: usize = arg(&args, "--id").and_then(|s| s.parse().ok()).unwrap_or(0);
+            let nops: usize = arg(&args, "--ops").and_then(|s| s.parse().ok()).unwrap_or(300);
+            let max_len: usize = arg(&args, "--maxlen").and_then(|s| s.parse().ok()).unwrap_or(500);
+            let upto: usize = arg(&args, "--upto").and_then(|s| s.parse().ok()).unwrap_or(usize::MAX);
+            watch::start();
+            let r = gen_history(0, id, seed, slice, nops, max_len, "", true);
+            println!("H hasher={}", hk_name(r.hk));
+            for (mid, op) in r.ops.iter().take(upto) {
+                println!("{}", fmt_op(*mid, op));
+            }
+        }
         "info" => {
             println!("R={} debug={} elem={}", probe_r(), cfg!(debug_assertions), std::mem::size_of::<(Key, Val)>());
         }
